@@ -208,7 +208,25 @@ def run_rebin(case, ctx):
 def e2e_case(draw):
     pkg = draw(convpkg.abstract_packages(max_models=4, max_ap=3, min_wav=3, max_wav=12))
     filters = draw(convpkg.filters_for(pkg['wav'], 1, 3))
-    return {'pkg': pkg, 'filters': filters, 'format': draw(st.sampled_from(['v1', 'v2'])),
+    fmt = draw(st.sampled_from(['v1', 'v2']))
+    n = len(pkg['names'])
+    if fmt == 'v1' and n >= 2 and draw(st.booleans()):
+        # some SEDs of a per-file package live on another wavelength grid (other length or same length)
+        nap = len(pkg['flux'][0])
+        by_model = [None] * n
+        for m in range(n):
+            if draw(st.booleans()):
+                nw2 = draw(st.sampled_from([len(pkg['wav']), len(pkg['wav']) + 2, 3, 7]))
+                w2 = draw(gen.increasing(nw2, pkg['wav'][0] * 0.8, pkg['wav'][-1] * 1.3, 1.02))
+                by_model[m] = w2
+                base = [draw(gen.logfloat(1e-2, 1e3)) for _ in range(nw2)]
+                pkg['flux'][m] = [[base[w] * (1. + 0.37 * ai) * (1. + 0.011 * ((7 * m + 3 * ai + w) % 13)) for w in range(nw2)]
+                                  for ai in range(nap)]
+                pkg['err'][m] = [[v * (0.01 + 0.003 * ((m + 2 * ai + 5 * w) % 7)) for w, v in enumerate(row)]
+                                 for ai, row in enumerate(pkg['flux'][m])]
+        if any(b is not None for b in by_model):
+            pkg['wav_by_model'] = by_model
+    return {'pkg': pkg, 'filters': filters, 'format': fmt,
             'memmap': draw(st.booleans()), 'a': draw(st.sampled_from([2., 0.5, 3.75])), 'b': draw(st.sampled_from([1., 0.25, 7.]))}
 
 
@@ -251,21 +269,27 @@ def run_e2e(case, ctx):
         a, b = case['a'], case['b']
         n = len(pkg['names'])
         comb = dict(pkg)
-        comb['flux'] = [[[a * pkg['flux'][m][ap][w] + b * pkg['flux'][n - 1 - m][ap][w] for w in range(len(pkg['wav']))]
-                         for ap in range(len(pkg['flux'][m]))] for m in range(n)]
-        res_c = convolve(comb, filters, fmt, d2, case['memmap'])
+        linear = not pkg.get('wav_by_model')
+        if linear:
+            comb['flux'] = [[[a * pkg['flux'][m][ap][w] + b * pkg['flux'][n - 1 - m][ap][w] for w in range(len(pkg['wav']))]
+                             for ap in range(len(pkg['flux'][m]))] for m in range(n)]
+            res_c = convolve(comb, filters, fmt, d2, case['memmap'])
         order = convpkg.table_order(pkg, fmt)
         for f in filters:
             ref_flux, ref_err = convpkg.reference_convolved(spkg, f)
             got = res[f['name']]
             if got['names'] != order:
                 fail('convolved/%s.fits rows are %r, expected %r' % (f['name'], got['names'], order), 'c06:row_order')
-            nu = [om.C_UM_HZ / w for w in pkg['wav']]
-            R, total = om.rebin_reference(f['nu'], f['response'], nu)
-            if sum(1 for r in R if r > 0) >= 2:
-                nontrivial = True
             for row, name in enumerate(got['names']):
                 m = pkg['names'].index(name)
+                mw = pkg['wav']
+                if pkg.get('wav_by_model') and pkg['wav_by_model'][m] is not None:
+                    mw = pkg['wav_by_model'][m]
+                    labels.add('per_model_grids')
+                nu = [om.C_UM_HZ / w for w in mw]
+                R, total = om.rebin_reference(f['nu'], f['response'], nu)
+                if sum(1 for r in R if r > 0) >= 2:
+                    nontrivial = True
                 for ap in range(got['flux'].shape[1]):
                     scale = sum(abs(spkg['flux'][m][ap][i]) * float(R[i]) for i in range(len(R)))
                     if f.get('normalize'):
@@ -282,6 +306,8 @@ def run_e2e(case, ctx):
                         fail('convolved/%s.fits: error of %s aperture %d is %r, sqrt(sum (E*R)^2) = %r (%s format)' % (
                             f['name'], name, ap, got['err'][row][ap], wante, 'per-file' if fmt == 'v1' else 'cube'),
                             'c06:convolved_error')
+                    if not linear:
+                        continue
                     # linearity
                     m2 = n - 1 - m
                     lin = a * got['flux'][row][ap] + b * res[f['name']]['flux'][got['names'].index(pkg['names'][m2])][ap]
